@@ -93,7 +93,7 @@ void run_cb(vh::Case &c, const CbConfig &cfg)
   vsh::ByteSource src(c.rd);
   vsched::Options opt;
   opt.step_budget = 200000;
-  c.note(std::string(" mode=") + (src.mode() ? "explicit" : "weighted"));
+  c.note(std::string(" mode=") + src.mode_name());
 
   vsched::RunStats rs = vsched::run(&src, opt, vsh::fatal, [&](vsched::Scheduler &s) {
     CircularBuffer<Elem> buf(static_cast<size_t>(cfg.capacity));
@@ -327,7 +327,7 @@ void run_spin(vh::Case &c, const SpinConfig &cfg)
   vsh::ByteSource src(c.rd);
   vsched::Options opt;
   opt.step_budget = 400000;
-  c.note(std::string(" mode=") + (src.mode() ? "explicit" : "weighted"));
+  c.note(std::string(" mode=") + src.mode_name());
   vsched::RunStats rs = vsched::run(&src, opt, vsh::fatal, [&](vsched::Scheduler &) {
     opentelemetry::common::SpinLockMutex mu;
     std::vector<std::unique_ptr<vsched::thread>> ts;
